@@ -119,7 +119,17 @@ def body(ctx: Ctx):
         n = 260 if ctx.tier == "quick" else 2600
         cfgs = [dict(c) for c in CORPUS] + [gen_cfg(ctx.rng) for _ in range(n)]
     ncpu = os.cpu_count() or 1
-    model = m.ask_many([dict(op="config_decide", env_ncpu=ncpu, **c) for c in cfgs])
+    if not ctx.replay_file:
+        # every fourth configuration with a per-call dictionary: the caller changes that very dictionary in place and submits it again
+        for k, c in enumerate(cfgs):
+            if c.get("percall") and not c.get("block_allocation") and k % 4 == 0 and "percall_then" not in c:
+                c["percall_then"] = ctx.rng.choice([{"cores": 64}, {"threads_per_core": 64}, {"unknown_key": True}, {"gpus_per_core": 1},
+                                                    {"cores": 1}, gen_rd(ctx.rng, 0.4) or {"cores": 1}])
+    model = m.ask_many([dict(op="config_decide", env_ncpu=ncpu, **{k: v for k, v in c.items() if k != "percall_then"}) for c in cfgs])
+    model_then = {k: mo for k, mo in zip([k for k, c in enumerate(cfgs) if c.get("percall_then") is not None],
+                                         m.ask_many([dict(op="config_decide", env_ncpu=ncpu, **dict({kk: v for kk, v in c.items() if kk != "percall_then"},
+                                                                                                     percall=c["percall_then"]))
+                                                     for c in cfgs if c.get("percall_then") is not None]))}
     with ThreadPoolExecutor(max_workers=16) as pool:
         outs = list(pool.map(run_cfg, cfgs))
     # anything that looks wrong is decided by time limits in part (a loaded machine is slow): run it again, alone, with
@@ -160,6 +170,19 @@ def body(ctx: Ctx):
             continue
         if not accepted_model:
             continue
+        kk = cfgs.index(c) if c.get("percall_then") is not None else None
+        if kk is not None and "submit3" in out and kk in model_then:
+            mo3 = model_then[kk]
+            ctx.count("same_dictionary_changed_and_resubmitted")
+            if mo3.get("construct") is None and out["submit3"] != mo3.get("submit"):
+                d3 = {"kind": "submit_of_changed_dictionary", "config": c, "impl": out["submit3"], "model": mo3.get("submit"), "outcome": out}
+                if mo3.get("submit") is not None and out["submit3"] is None:
+                    # a request the executor must refuse was accepted because the dictionary object had been seen before
+                    fails.append({"config": c, "outcome": out, "model": mo3,
+                                  "what": "the per-call dictionary, changed in place and submitted again, was accepted although its content must be refused"})
+                else:
+                    diffs.append(d3)
+                continue
         ran = out["result"] == "ok" and out["shutdown"] == "returned"
         if mo["runnable"]:
             if not ran:
